@@ -4,7 +4,10 @@
 //! script fills. Everything is logged with virtual time and a world-wide order number; the
 //! property oracles analyse the recorded history afterwards.
 
-use crate::master::{AssociationHandle, Classes, CommandBuilder, CommandMode, CommandSupport, EventClasses, ReadRequest, TimeSyncProcedure};
+use crate::master::{
+    AssociationHandle, Classes, CommandBuilder, CommandMode, CommandSupport, EventClasses,
+    ReadRequest, TimeSyncProcedure,
+};
 use crate::verif::io::{self, ChanRef, ChunkMode, CloseKind};
 use crate::verif::kernel::{self, Sim};
 use crate::verif::nodes::master::{MEv, MasterCfg, MasterNode};
@@ -47,7 +50,11 @@ pub enum Reply {
     /// send the response twice
     Dup,
     /// an unsolicited response first (seq, with data?, CON?), then the faithful reply
-    UnsolThenFaithful { seq: u8, data: bool, con: bool },
+    UnsolThenFaithful {
+        seq: u8,
+        data: bool,
+        con: bool,
+    },
     /// control echo altered (C16)
     Echo(EchoMutation),
     /// file transfer: block number of the returned block changed by this much
@@ -58,20 +65,30 @@ pub enum Reply {
     WithCon,
     /// cut the connection instead of answering
     Cut,
+    /// the faithful reply, then end of file: the master can still read the reply but its next write fails
+    FaithfulThenEof,
 }
 
 #[derive(Clone, Debug, Serialize, Deserialize, PartialEq)]
 pub enum EchoMutation {
     /// set the status octet of object n (counted over the whole echo) to this value
-    Status { object: usize, status: u8 },
+    Status {
+        object: usize,
+        status: u8,
+    },
     /// flip one bit in the value field of object n
-    ValueBit { object: usize, bit: u8 },
+    ValueBit {
+        object: usize,
+        bit: u8,
+    },
     DropLastObject,
     DuplicateLastObject,
     SwapFirstTwoObjects,
     DropLastHeader,
     /// change the index of object n
-    Index { object: usize },
+    Index {
+        object: usize,
+    },
     /// switch the prefix size of a header (0x17 <-> 0x28)
     Qualifier,
 }
@@ -81,16 +98,25 @@ pub enum UserKind {
     /// READ of these classes (bit0..2 = class 1..3, bit3 = class 0)
     ReadClasses(u8),
     /// commands: (group 12 or 41 var, index, 16-bit index?) in up to 3 headers
-    Command { sbo: bool, headers: Vec<Vec<(u8, u16, bool)>> },
+    Command {
+        sbo: bool,
+        headers: Vec<Vec<(u8, u16, bool)>>,
+    },
     TimeSync(u8),
-    Restart { cold: bool },
+    Restart {
+        cold: bool,
+    },
     LinkStatus,
     /// a request that expects an empty response (function code)
     Empty(u8),
     /// WRITE of n analog dead-bands
     DeadBands(u8),
     /// read_file of a file of `blocks` blocks of `block_size` octets; the FileReader aborts in opened (0) or at block n-1
-    FileRead { blocks: u8, block_size: u8, abort_at: Option<u8> },
+    FileRead {
+        blocks: u8,
+        block_size: u8,
+        abort_at: Option<u8>,
+    },
     /// read_directory of a directory with this many entries
     Directory(u8),
     /// get_file_info
@@ -99,38 +125,75 @@ pub enum UserKind {
 
 #[derive(Clone, Debug, Serialize, Deserialize, PartialEq)]
 pub enum MOp {
-    User { assoc: usize, kind: UserKind },
-    AddPoll { assoc: usize, classes: u8, period_ms: u64 },
+    User {
+        assoc: usize,
+        kind: UserKind,
+    },
+    AddPoll {
+        assoc: usize,
+        classes: u8,
+        period_ms: u64,
+    },
     DemandPoll(usize),
     RemovePoll(usize),
     Enable,
     Disable,
     RemoveAssoc(usize),
     /// append to the reply queue of outstation `assoc`
-    Replies { assoc: usize, replies: Vec<Reply> },
+    Replies {
+        assoc: usize,
+        replies: Vec<Reply>,
+    },
     /// IIN bits the outstation reports from now on
-    SetIin { assoc: usize, iin1: u8, iin2: u8 },
+    SetIin {
+        assoc: usize,
+        iin1: u8,
+        iin2: u8,
+    },
     /// the outstation sends an unsolicited response now
-    Unsol { assoc: usize, seq: u8, data: bool, con: bool },
+    Unsol {
+        assoc: usize,
+        seq: u8,
+        data: bool,
+        con: bool,
+    },
     /// the outstation re-sends its last unsolicited response unchanged
     UnsolRepeat,
     /// raw application fragment from this source address
-    Raw { src: u16, bytes: Vec<u8> },
+    Raw {
+        src: u16,
+        bytes: Vec<u8>,
+    },
     /// octets put on the wire as they are (not framed): link-level garbage, bad CRCs, partial frames
     Wire(Vec<u8>),
     /// `n` LINK_STATUS frames from outstation `assoc` (harmless padding that flushes a partial frame out of a resynchronising parser)
-    LinkPadding { assoc: usize, n: usize },
+    LinkPadding {
+        assoc: usize,
+        n: usize,
+    },
     /// forget the queued reply policies of every outstation
     ClearReplies,
     /// how many fragments a READ response series has and how many objects each carries
-    ReadShape { assoc: usize, fragments: Vec<u8> },
+    ReadShape {
+        assoc: usize,
+        fragments: Vec<u8>,
+    },
     /// the `at`-th fragment (1 = second) of the next READ response series deviates
-    SeriesDev { assoc: usize, at: usize, dev: SeriesDev },
+    SeriesDev {
+        assoc: usize,
+        at: usize,
+        dev: SeriesDev,
+    },
     Sleep(u64),
-    Cut { eof: bool },
+    Cut {
+        eof: bool,
+    },
     NetPlan(Vec<u8>),
     /// whether the outstation answers REQUEST_LINK_STATUS frames
-    AnswerLinkStatus { assoc: usize, on: bool },
+    AnswerLinkStatus {
+        assoc: usize,
+        on: bool,
+    },
     /// NEED_TIME stays set whatever is written
     StickyNeedTime(bool),
     /// the master task is dropped (runtime shutdown): every pending promise must still resolve
@@ -138,7 +201,11 @@ pub enum MOp {
     /// a channel message unrelated to any request (set_decode_level) - activity while tasks wait
     Poke,
     /// outstation processing delay reported in DELAY_MEASURE and honoured by holding the reply
-    ProcessingDelay { assoc: usize, ms: u16, honest: bool },
+    ProcessingDelay {
+        assoc: usize,
+        ms: u16,
+        honest: bool,
+    },
 }
 
 /// deviation applied to a non-first fragment of a READ response series
@@ -174,16 +241,54 @@ pub struct SmastCase {
 pub enum PeerEv {
     /// application fragment received from the master
     /// `worder` = order number at which the master wrote the (last octets of the) fragment
-    Rx { t: u64, order: u64, worder: u64, src: u16, dest: u16, bytes: Vec<u8>, session: u32 },
+    Rx {
+        t: u64,
+        order: u64,
+        worder: u64,
+        src: u16,
+        dest: u16,
+        bytes: Vec<u8>,
+        session: u32,
+    },
     /// application fragment sent to the master; `valid` = it is the correct answer a compliant master must accept
-    Tx { t: u64, order: u64, src: u16, bytes: Vec<u8>, kind: String, valid: bool, answers: Option<u64>, session: u32 },
-    LinkRx { t: u64, order: u64, worder: u64, frame: RefFrame },
+    Tx {
+        t: u64,
+        order: u64,
+        src: u16,
+        bytes: Vec<u8>,
+        kind: String,
+        valid: bool,
+        answers: Option<u64>,
+        session: u32,
+    },
+    LinkRx {
+        t: u64,
+        order: u64,
+        worder: u64,
+        frame: RefFrame,
+    },
     /// link status reply sent by outstation `src` (t = time it was sent)
-    LinkTx { t: u64, order: u64, src: u16 },
-    Connected { t: u64, order: u64, session: u32 },
-    Closed { t: u64, order: u64, session: u32 },
+    LinkTx {
+        t: u64,
+        order: u64,
+        src: u16,
+    },
+    Connected {
+        t: u64,
+        order: u64,
+        session: u32,
+    },
+    Closed {
+        t: u64,
+        order: u64,
+        session: u32,
+    },
     /// a delayed transmission: written at t, visible to the master at `at`
-    Note { t: u64, order: u64, text: String },
+    Note {
+        t: u64,
+        order: u64,
+        text: String,
+    },
 }
 
 pub struct OutstationSim {
@@ -291,7 +396,15 @@ impl PeerShared {
         }
     }
 
-    pub fn transmit(&mut self, src: u16, bytes: &[u8], kind: &str, valid: bool, answers: Option<u64>, delay: u64) {
+    pub fn transmit(
+        &mut self,
+        src: u16,
+        bytes: &[u8],
+        kind: &str,
+        valid: bool,
+        answers: Option<u64>,
+        delay: u64,
+    ) {
         let (t, order) = order_now();
         let dest = self.master_addr;
         let session = self.session;
@@ -321,7 +434,13 @@ fn analog_objects(first_index: u8, values: &[u32]) -> Vec<u8> {
     if values.is_empty() {
         return Vec::new();
     }
-    let mut out = vec![30, 1, 0x00, first_index, first_index + values.len() as u8 - 1];
+    let mut out = vec![
+        30,
+        1,
+        0x00,
+        first_index,
+        first_index + values.len() as u8 - 1,
+    ];
     for v in values {
         out.push(0x01);
         out.extend_from_slice(&(*v as i32).to_le_bytes());
@@ -357,23 +476,27 @@ fn mutate_echo(objects: &[u8], m: &EchoMutation) -> Vec<u8> {
         Err(_) => return objects.to_vec(),
     };
     // rebuild as (group, var, qualifier, Vec<(index, raw)>)
-    let mut hs: Vec<(u8, u8, u8, Vec<(u32, Vec<u8>)>)> = headers.iter().map(|h| (h.group, h.var, h.qualifier, Vec::new())).collect();
+    let mut hs: Vec<(u8, u8, u8, Vec<(u32, Vec<u8>)>)> = headers
+        .iter()
+        .map(|h| (h.group, h.var, h.qualifier, Vec::new()))
+        .collect();
     for o in &objs {
         if let Some(h) = hs.get_mut(o.header_no) {
             h.3.push((o.index.unwrap_or(0), o.raw.clone()));
         }
     }
     let total: usize = hs.iter().map(|h| h.3.len()).sum();
-    let locate = |hs: &Vec<(u8, u8, u8, Vec<(u32, Vec<u8>)>)>, n: usize| -> Option<(usize, usize)> {
-        let mut k = n % total.max(1);
-        for (hi, h) in hs.iter().enumerate() {
-            if k < h.3.len() {
-                return Some((hi, k));
+    let locate =
+        |hs: &Vec<(u8, u8, u8, Vec<(u32, Vec<u8>)>)>, n: usize| -> Option<(usize, usize)> {
+            let mut k = n % total.max(1);
+            for (hi, h) in hs.iter().enumerate() {
+                if k < h.3.len() {
+                    return Some((hi, k));
+                }
+                k -= h.3.len();
             }
-            k -= h.3.len();
-        }
-        None
-    };
+            None
+        };
     match m {
         EchoMutation::Status { object, status } => {
             if let Some((h, o)) = locate(&hs, *object) {
@@ -491,7 +614,12 @@ fn on_fragment(p: &mut PeerShared, src: u16, dest: u16, bytes: &[u8], worder: u6
                 None => p.transmit(addr, &frag, "read-series-next", true, answers, 0),
                 Some(SeriesDev::Flags(nibble)) => {
                     frag[0] = (nibble & 0xF0) | nseq;
-                    let (fir, fin, con, uns) = (frag[0] & 0x80 != 0, frag[0] & 0x40 != 0, frag[0] & 0x20 != 0, frag[0] & 0x10 != 0);
+                    let (fir, fin, con, uns) = (
+                        frag[0] & 0x80 != 0,
+                        frag[0] & 0x40 != 0,
+                        frag[0] & 0x20 != 0,
+                        frag[0] & 0x10 != 0,
+                    );
                     let valid = !fir && !uns && (fin || con);
                     p.transmit(addr, &frag, "series-flags", valid, answers, 0);
                     if !valid || fin {
@@ -528,7 +656,10 @@ fn on_fragment(p: &mut PeerShared, src: u16, dest: u16, bytes: &[u8], worder: u6
         }
         return;
     }
-    let reply = p.outstations[oi].replies.pop_front().unwrap_or(Reply::Faithful);
+    let reply = p.outstations[oi]
+        .replies
+        .pop_front()
+        .unwrap_or(Reply::Faithful);
     if reply != Reply::Faithful {
         p.last_deviation_ms = t;
     }
@@ -584,9 +715,17 @@ fn on_fragment(p: &mut PeerShared, src: u16, dest: u16, bytes: &[u8], worder: u6
             }
         }
         refapp::FUNC_SELECT | refapp::FUNC_OPERATE | refapp::FUNC_DIRECT_OPERATE => {
-            fragments.push(response_bytes(Ctrl::request(seq), refapp::FUNC_RESPONSE, iin, &bytes[2..]));
+            fragments.push(response_bytes(
+                Ctrl::request(seq),
+                refapp::FUNC_RESPONSE,
+                iin,
+                &bytes[2..],
+            ));
         }
-        refapp::FUNC_DIRECT_OPERATE_NR | refapp::FUNC_IMMED_FREEZE_NR | refapp::FUNC_FREEZE_CLEAR_NR | refapp::FUNC_FREEZE_AT_TIME_NR => {
+        refapp::FUNC_DIRECT_OPERATE_NR
+        | refapp::FUNC_IMMED_FREEZE_NR
+        | refapp::FUNC_FREEZE_CLEAR_NR
+        | refapp::FUNC_FREEZE_AT_TIME_NR => {
             no_reply = true;
         }
         refapp::FUNC_DELAY_MEASURE => {
@@ -597,22 +736,40 @@ fn on_fragment(p: &mut PeerShared, src: u16, dest: u16, bytes: &[u8], worder: u6
             }
             let mut objects = vec![52, 2, 0x07, 1];
             objects.extend_from_slice(&d.to_le_bytes());
-            fragments.push(response_bytes(Ctrl::request(seq), refapp::FUNC_RESPONSE, iin, &objects));
+            fragments.push(response_bytes(
+                Ctrl::request(seq),
+                refapp::FUNC_RESPONSE,
+                iin,
+                &objects,
+            ));
         }
         refapp::FUNC_COLD_RESTART | refapp::FUNC_WARM_RESTART => {
             let mut objects = vec![52, 2, 0x07, 1];
             objects.extend_from_slice(&1500u16.to_le_bytes());
-            fragments.push(response_bytes(Ctrl::request(seq), refapp::FUNC_RESPONSE, iin, &objects));
+            fragments.push(response_bytes(
+                Ctrl::request(seq),
+                refapp::FUNC_RESPONSE,
+                iin,
+                &objects,
+            ));
         }
         refapp::FUNC_RECORD_CURRENT_TIME => {
             p.outstations[oi].recorded_time_at = Some(t);
             p.outstations[oi].recorded_times.push(t);
-            fragments.push(response_bytes(Ctrl::request(seq), refapp::FUNC_RESPONSE, iin, &[]));
+            fragments.push(response_bytes(
+                Ctrl::request(seq),
+                refapp::FUNC_RESPONSE,
+                iin,
+                &[],
+            ));
         }
         25 => {
             // OPEN_FILE with g70v3: the name "f<blocks>x<size>" says what the file looks like
             let obj = bytes.get(8..).unwrap_or(&[]);
-            let name = obj.get(26..).map(|n| String::from_utf8_lossy(n).to_string()).unwrap_or_default();
+            let name = obj
+                .get(26..)
+                .map(|n| String::from_utf8_lossy(n).to_string())
+                .unwrap_or_default();
             let mut it = name.trim_start_matches('f').split('x');
             let blocks: u32 = it.next().and_then(|x| x.parse().ok()).unwrap_or(1);
             let bsize: u32 = it.next().and_then(|x| x.parse().ok()).unwrap_or(1);
@@ -639,19 +796,38 @@ fn on_fragment(p: &mut PeerShared, src: u16, dest: u16, bytes: &[u8], worder: u6
             body.extend_from_slice(&1024u16.to_le_bytes());
             body.extend_from_slice(&obj.get(24..26).map(|x| [x[0], x[1]]).unwrap_or([0, 0]));
             body.push(0);
-            fragments.push(response_bytes(Ctrl::request(seq), refapp::FUNC_RESPONSE, iin, &free_format(70, 4, &body)));
+            fragments.push(response_bytes(
+                Ctrl::request(seq),
+                refapp::FUNC_RESPONSE,
+                iin,
+                &free_format(70, 4, &body),
+            ));
         }
         28 => {
             // GET_FILE_INFO with g70v7: answered with the descriptor of that name
             let obj = bytes.get(8..).unwrap_or(&[]);
-            let name = obj.get(20..).map(|n| String::from_utf8_lossy(n).to_string()).unwrap_or_default();
-            let rid = obj.get(18..20).map(|x| u16::from_le_bytes([x[0], x[1]])).unwrap_or(0);
-            fragments.push(response_bytes(Ctrl::request(seq), refapp::FUNC_RESPONSE, iin, &free_format(70, 7, &file_descriptor(&name, 4321, rid))));
+            let name = obj
+                .get(20..)
+                .map(|n| String::from_utf8_lossy(n).to_string())
+                .unwrap_or_default();
+            let rid = obj
+                .get(18..20)
+                .map(|x| u16::from_le_bytes([x[0], x[1]]))
+                .unwrap_or(0);
+            fragments.push(response_bytes(
+                Ctrl::request(seq),
+                refapp::FUNC_RESPONSE,
+                iin,
+                &free_format(70, 7, &file_descriptor(&name, 4321, rid)),
+            ));
         }
         26 => {
             // CLOSE_FILE with g70v4
             let obj = bytes.get(8..).unwrap_or(&[]);
-            let handle = obj.get(0..4).map(|x| u32::from_le_bytes([x[0], x[1], x[2], x[3]])).unwrap_or(0);
+            let handle = obj
+                .get(0..4)
+                .map(|x| u32::from_le_bytes([x[0], x[1], x[2], x[3]]))
+                .unwrap_or(0);
             p.outstations[oi].file = None;
             let mut body = Vec::new();
             body.extend_from_slice(&handle.to_le_bytes());
@@ -659,7 +835,12 @@ fn on_fragment(p: &mut PeerShared, src: u16, dest: u16, bytes: &[u8], worder: u6
             body.extend_from_slice(&0u16.to_le_bytes());
             body.extend_from_slice(&obj.get(10..12).map(|x| [x[0], x[1]]).unwrap_or([0, 0]));
             body.push(0);
-            fragments.push(response_bytes(Ctrl::request(seq), refapp::FUNC_RESPONSE, iin, &free_format(70, 4, &body)));
+            fragments.push(response_bytes(
+                Ctrl::request(seq),
+                refapp::FUNC_RESPONSE,
+                iin,
+                &free_format(70, 4, &body),
+            ));
         }
         refapp::FUNC_READ if bytes.len() >= 16 && bytes[2] == 70 && bytes[3] == 5 => {
             // READ of the next file block
@@ -682,7 +863,12 @@ fn on_fragment(p: &mut PeerShared, src: u16, dest: u16, bytes: &[u8], worder: u6
                     }
                 }
             }
-            fragments.push(response_bytes(Ctrl::request(seq), refapp::FUNC_RESPONSE, iin, &free_format(70, 5, &body)));
+            fragments.push(response_bytes(
+                Ctrl::request(seq),
+                refapp::FUNC_RESPONSE,
+                iin,
+                &free_format(70, 5, &body),
+            ));
         }
         refapp::FUNC_WRITE => {
             // restart-bit clear and time writes are interpreted, everything else just acknowledged
@@ -705,10 +891,20 @@ fn on_fragment(p: &mut PeerShared, src: u16, dest: u16, bytes: &[u8], worder: u6
                 }
             }
             let iin = p.outstations[oi].iin;
-            fragments.push(response_bytes(Ctrl::request(seq), refapp::FUNC_RESPONSE, iin, &[]));
+            fragments.push(response_bytes(
+                Ctrl::request(seq),
+                refapp::FUNC_RESPONSE,
+                iin,
+                &[],
+            ));
         }
         _ => {
-            fragments.push(response_bytes(Ctrl::request(seq), refapp::FUNC_RESPONSE, iin, &[]));
+            fragments.push(response_bytes(
+                Ctrl::request(seq),
+                refapp::FUNC_RESPONSE,
+                iin,
+                &[],
+            ));
         }
     }
     let answers = Some(order);
@@ -763,7 +959,12 @@ fn on_fragment(p: &mut PeerShared, src: u16, dest: u16, bytes: &[u8], worder: u6
                 f[0] = (nibble & 0xF0) | seq;
                 // still a correct answer if FIR/FIN/UNS are the right ones and confirmation is requested where it must be
                 // (a response may always ask for confirmation)
-                let (fir, fin, con, uns) = (f[0] & 0x80 != 0, f[0] & 0x40 != 0, f[0] & 0x20 != 0, f[0] & 0x10 != 0);
+                let (fir, fin, con, uns) = (
+                    f[0] & 0x80 != 0,
+                    f[0] & 0x40 != 0,
+                    f[0] & 0x20 != 0,
+                    f[0] & 0x10 != 0,
+                );
                 let _ = orig;
                 let valid = if func == refapp::FUNC_READ {
                     // any well-formed first fragment: the master cannot know how many fragments were intended
@@ -778,9 +979,9 @@ fn on_fragment(p: &mut PeerShared, src: u16, dest: u16, bytes: &[u8], worder: u6
                     o.series = fragments[1..].iter().cloned().collect();
                     o.series_seq = seq;
                     o.series_answers = answers;
-                o.series_index = 0;
                     o.series_index = 0;
-        o.series_index = 0;
+                    o.series_index = 0;
+                    o.series_index = 0;
                 }
             }
         }
@@ -805,9 +1006,9 @@ fn on_fragment(p: &mut PeerShared, src: u16, dest: u16, bytes: &[u8], worder: u6
                     o.series = fragments[1..].iter().cloned().collect();
                     o.series_seq = seq;
                     o.series_answers = answers;
-                o.series_index = 0;
                     o.series_index = 0;
-        o.series_index = 0;
+                    o.series_index = 0;
+                    o.series_index = 0;
                 }
             }
         }
@@ -833,7 +1034,8 @@ fn on_fragment(p: &mut PeerShared, src: u16, dest: u16, bytes: &[u8], worder: u6
                 let is_block = f.len() >= 18 && f[4] == 70 && f[5] == 5;
                 if is_block {
                     let n = u32::from_le_bytes([f[14], f[15], f[16], f[17]]);
-                    let m = (n & 0x8000_0000) | ((n & 0x7FFF_FFFF).wrapping_add(d as i32 as u32) & 0x7FFF_FFFF);
+                    let m = (n & 0x8000_0000)
+                        | ((n & 0x7FFF_FFFF).wrapping_add(d as i32 as u32) & 0x7FFF_FFFF);
                     f[14..18].copy_from_slice(&m.to_le_bytes());
                 }
                 let valid = !is_block || d == 0;
@@ -858,7 +1060,11 @@ fn on_fragment(p: &mut PeerShared, src: u16, dest: u16, bytes: &[u8], worder: u6
                 p.transmit(addr, &f, "duplicate", false, answers, 0);
             }
         }
-        Reply::UnsolThenFaithful { seq: useq, data, con } => {
+        Reply::UnsolThenFaithful {
+            seq: useq,
+            data,
+            con,
+        } => {
             send_unsolicited(p, oi, useq, data, con);
             send_faithful(p, 0, "faithful-after-unsolicited");
         }
@@ -882,11 +1088,15 @@ fn on_fragment(p: &mut PeerShared, src: u16, dest: u16, bytes: &[u8], worder: u6
                 o.series_seq = seq;
                 o.series_answers = answers;
                 o.series_index = 0;
-        o.series_index = 0;
+                o.series_index = 0;
             }
         }
         Reply::Cut => {
             p.cut_requested = Some(CloseKind::Reset);
+        }
+        Reply::FaithfulThenEof => {
+            send_faithful(p, 0, "faithful");
+            p.cut_requested = Some(CloseKind::Eof);
         }
     }
 }
@@ -933,7 +1143,18 @@ pub fn send_unsolicited(p: &mut PeerShared, oi: usize, seq: u8, data: bool, con:
     };
     let bytes = response_bytes(ctrl, refapp::FUNC_UNSOL_RESPONSE, iin, &objects);
     p.last_unsol = Some((addr, bytes.clone()));
-    p.transmit(addr, &bytes, if data { "unsolicited-data" } else { "unsolicited-null" }, true, None, 0);
+    p.transmit(
+        addr,
+        &bytes,
+        if data {
+            "unsolicited-data"
+        } else {
+            "unsolicited-null"
+        },
+        true,
+        None,
+        0,
+    );
 }
 
 /// future that completes when the channel has deliverable data or is closed
@@ -972,7 +1193,11 @@ impl Future for Readable {
 /// the scripted outstation(s) as a simulated task
 pub async fn peer_task(peer: Peer, net: SimNetwork) {
     loop {
-        let Accepted { to_client, from_client, .. } = net.accept().await;
+        let Accepted {
+            to_client,
+            from_client,
+            ..
+        } = net.accept().await;
         {
             let mut p = peer.lock().unwrap();
             p.session += 1;
@@ -985,7 +1210,11 @@ pub async fn peer_task(peer: Peer, net: SimNetwork) {
             p.log(PeerEv::Connected { t, order, session });
         }
         loop {
-            let alive = Readable { chan: from_client.clone(), sleep: None }.await;
+            let alive = Readable {
+                chan: from_client.clone(),
+                sleep: None,
+            }
+            .await;
             let mut p = peer.lock().unwrap();
             if !alive {
                 break;
@@ -1011,7 +1240,12 @@ pub async fn peer_task(peer: Peer, net: SimNetwork) {
             for (k, (_, f)) in new_links.into_iter().enumerate() {
                 let (t, order) = order_now();
                 let worder = new_orders.get(k).copied().unwrap_or(order);
-                p.log(PeerEv::LinkRx { t, order, worder, frame: f.clone() });
+                p.log(PeerEv::LinkRx {
+                    t,
+                    order,
+                    worder,
+                    frame: f.clone(),
+                });
                 if f.ctrl & 0x4F == 0x49 {
                     // REQUEST_LINK_STATUS
                     if let Some(o) = p.outstations.iter().find(|o| o.address == f.dest) {
@@ -1024,7 +1258,11 @@ pub async fn peer_task(peer: Peer, net: SimNetwork) {
                                 p.last_delivery_ms = due;
                                 io::chan_push(&to_client, due, wire);
                                 let (_, order) = order_now();
-                                p.log(PeerEv::LinkTx { t: due - lat, order, src: f.dest });
+                                p.log(PeerEv::LinkTx {
+                                    t: due - lat,
+                                    order,
+                                    src: f.dest,
+                                });
                             }
                         }
                     }
@@ -1079,11 +1317,17 @@ pub struct MastRun {
 }
 
 pub fn classes_of(mask: u8) -> Classes {
-    Classes::new(mask & 8 != 0, EventClasses::new(mask & 1 != 0, mask & 2 != 0, mask & 4 != 0))
+    Classes::new(
+        mask & 8 != 0,
+        EventClasses::new(mask & 1 != 0, mask & 2 != 0, mask & 4 != 0),
+    )
 }
 
 fn build_commands(headers: &[Vec<(u8, u16, bool)>]) -> crate::master::CommandHeaders {
-    use crate::app::control::{ControlCode, Group12Var1, Group41Var1, Group41Var2, Group41Var3, Group41Var4, OpType, TripCloseCode};
+    use crate::app::control::{
+        ControlCode, Group12Var1, Group41Var1, Group41Var2, Group41Var3, Group41Var4, OpType,
+        TripCloseCode,
+    };
     let mut b = CommandBuilder::new();
     for h in headers {
         for (var, index, wide) in h {
@@ -1106,23 +1350,38 @@ fn build_commands(headers: &[Vec<(u8, u16, bool)>]) -> crate::master::CommandHea
         }
         b.finish_header();
     }
-    let _ = (ControlCode::from_op_type(OpType::LatchOn), TripCloseCode::Nul);
+    let _ = (
+        ControlCode::from_op_type(OpType::LatchOn),
+        TripCloseCode::Nul,
+    );
     b.build()
 }
 
 /// spawn a simulated user thread performing one request and recording its outcome
-pub fn spawn_user(sim: &Sim, node: &MasterNode, id: u64, assoc: &AssociationHandle, kind: &UserKind) {
+pub fn spawn_user(
+    sim: &Sim,
+    node: &MasterNode,
+    id: u64,
+    assoc: &AssociationHandle,
+    kind: &UserKind,
+) {
     let rec = node.rec.clone();
     let mut h = assoc.clone();
     let kind = kind.clone();
     sim.spawn("user", async move {
         let (ok, outcome) = match kind {
-            UserKind::ReadClasses(mask) => match h.read(ReadRequest::class_scan(classes_of(mask))).await {
-                Ok(()) => (true, "Ok".to_string()),
-                Err(e) => (false, format!("{:?}", e)),
-            },
+            UserKind::ReadClasses(mask) => {
+                match h.read(ReadRequest::class_scan(classes_of(mask))).await {
+                    Ok(()) => (true, "Ok".to_string()),
+                    Err(e) => (false, format!("{:?}", e)),
+                }
+            }
             UserKind::Command { sbo, headers } => {
-                let mode = if sbo { CommandMode::SelectBeforeOperate } else { CommandMode::DirectOperate };
+                let mode = if sbo {
+                    CommandMode::SelectBeforeOperate
+                } else {
+                    CommandMode::DirectOperate
+                };
                 match h.operate(mode, build_commands(&headers)).await {
                     Ok(()) => (true, "Ok".to_string()),
                     Err(e) => (false, format!("{:?}", e)),
@@ -1140,7 +1399,11 @@ pub fn spawn_user(sim: &Sim, node: &MasterNode, id: u64, assoc: &AssociationHand
                 }
             }
             UserKind::Restart { cold } => {
-                let r = if cold { h.cold_restart().await } else { h.warm_restart().await };
+                let r = if cold {
+                    h.cold_restart().await
+                } else {
+                    h.warm_restart().await
+                };
                 match r {
                     Ok(d) => (true, format!("Ok({:?})", d)),
                     Err(e) => (false, format!("{:?}", e)),
@@ -1150,19 +1413,43 @@ pub fn spawn_user(sim: &Sim, node: &MasterNode, id: u64, assoc: &AssociationHand
                 Ok(()) => (true, "Ok".to_string()),
                 Err(e) => (false, format!("{:?}", e)),
             },
-            UserKind::FileRead { blocks, block_size, abort_at } => {
-                let reader = crate::verif::nodes::master::FReader { rec: rec.clone(), id, abort_at: abort_at.map(|x| x as u32) };
+            UserKind::FileRead {
+                blocks,
+                block_size,
+                abort_at,
+            } => {
+                let reader = crate::verif::nodes::master::FReader {
+                    rec: rec.clone(),
+                    id,
+                    abort_at: abort_at.map(|x| x as u32),
+                };
                 let name = format!("f{}x{}", blocks, block_size);
-                let config = crate::master::FileReadConfig { max_block_size: 1024, max_file_size: 10_000 };
+                let config = crate::master::FileReadConfig {
+                    max_block_size: 1024,
+                    max_file_size: 10_000,
+                };
                 match h.read_file(name, config, Box::new(reader), None).await {
                     Ok(()) => (true, "Queued".to_string()),
                     Err(e) => (false, format!("{:?}", e)),
                 }
             }
             UserKind::Directory(n) => {
-                let config = crate::master::DirReadConfig { max_block_size: 1024, max_file_size: 10_000 };
+                let config = crate::master::DirReadConfig {
+                    max_block_size: 1024,
+                    max_file_size: 10_000,
+                };
                 match h.read_directory(format!("d{}", n), config, None).await {
-                    Ok(items) => (true, format!("Ok({} entries: {:?})", items.len(), items.iter().map(|i| (i.name.clone(), i.size)).collect::<Vec<_>>())),
+                    Ok(items) => (
+                        true,
+                        format!(
+                            "Ok({} entries: {:?})",
+                            items.len(),
+                            items
+                                .iter()
+                                .map(|i| (i.name.clone(), i.size))
+                                .collect::<Vec<_>>()
+                        ),
+                    ),
                     Err(e) => (false, format!("{:?}", e)),
                 }
             }
@@ -1172,14 +1459,21 @@ pub fn spawn_user(sim: &Sim, node: &MasterNode, id: u64, assoc: &AssociationHand
             },
             UserKind::DeadBands(n) => {
                 let items: Vec<(u8, u16)> = (0..n.max(1)).map(|i| (i, 100 + i as u16)).collect();
-                match h.write_dead_bands(vec![crate::master::DeadBandHeader::group34_var1_u8(items)]).await {
+                match h
+                    .write_dead_bands(vec![crate::master::DeadBandHeader::group34_var1_u8(items)])
+                    .await
+                {
                     Ok(()) => (true, "Ok".to_string()),
                     Err(e) => (false, format!("{:?}", e)),
                 }
             }
             UserKind::Empty(fc) => {
-                let func = crate::app::FunctionCode::from(fc).unwrap_or(crate::app::FunctionCode::RecordCurrentTime);
-                match h.send_and_expect_empty_response(func, crate::master::Headers::new()).await {
+                let func = crate::app::FunctionCode::from(fc)
+                    .unwrap_or(crate::app::FunctionCode::RecordCurrentTime);
+                match h
+                    .send_and_expect_empty_response(func, crate::master::Headers::new())
+                    .await
+                {
                     Ok(()) => (true, "Ok".to_string()),
                     Err(e) => (false, format!("{:?}", e)),
                 }
@@ -1195,7 +1489,12 @@ pub async fn drive(sim: &Sim, case: &SmastCase) -> MastRun {
     net.set_latency(case.latency.0, case.latency.1, 0, 0);
     let peer: Peer = Arc::new(Mutex::new(PeerShared {
         master_addr: case.cfg.master_addr,
-        outstations: case.cfg.assocs.iter().map(|a| OutstationSim::new(a.address)).collect(),
+        outstations: case
+            .cfg
+            .assocs
+            .iter()
+            .map(|a| OutstationSim::new(a.address))
+            .collect(),
         log: Vec::new(),
         session: 0,
         conn: None,
@@ -1222,17 +1521,25 @@ pub async fn drive(sim: &Sim, case: &SmastCase) -> MastRun {
             MOp::User { assoc, kind } => {
                 if let Some(h) = node.assocs.get(*assoc % node.assocs.len().max(1)) {
                     let h = h.clone();
-                    node.rec.lock().unwrap().push(MEv::Other { assoc: h.address().raw_value(), what: format!("user-request id={} {:?}", next_user_id, kind) });
+                    node.rec.lock().unwrap().push(MEv::Other {
+                        assoc: h.address().raw_value(),
+                        what: format!("user-request id={} {:?}", next_user_id, kind),
+                    });
                     spawn_user(sim, &node, next_user_id, &h, kind);
                     user_kinds.push((next_user_id, h.address().raw_value(), kind.clone()));
                     next_user_id += 1;
                 }
             }
-            MOp::AddPoll { assoc, classes, period_ms } => {
+            MOp::AddPoll {
+                assoc,
+                classes,
+                period_ms,
+            } => {
                 if let Some(h) = node.assocs.get(*assoc % node.assocs.len().max(1)) {
                     let mut h = h.clone();
                     let h2_addr = h.address().raw_value();
-                    let slot: Arc<Mutex<Option<crate::master::PollHandle>>> = Arc::new(Mutex::new(None));
+                    let slot: Arc<Mutex<Option<crate::master::PollHandle>>> =
+                        Arc::new(Mutex::new(None));
                     let s2 = slot.clone();
                     let req = ReadRequest::class_scan(classes_of(*classes));
                     let period = Duration::from_millis(*period_ms);
@@ -1306,7 +1613,12 @@ pub async fn drive(sim: &Sim, case: &SmastCase) -> MastRun {
                     o.iin = (*iin1, *iin2);
                 }
             }
-            MOp::Unsol { assoc, seq, data, con } => {
+            MOp::Unsol {
+                assoc,
+                seq,
+                data,
+                con,
+            } => {
                 let mut p = peer.lock().unwrap();
                 let n = p.outstations.len().max(1);
                 send_unsolicited(&mut p, *assoc % n, *seq, *data, *con);
@@ -1373,7 +1685,11 @@ pub async fn drive(sim: &Sim, case: &SmastCase) -> MastRun {
             MOp::Cut { eof } => {
                 let conn = peer.lock().unwrap().conn.clone();
                 if let Some((a, b)) = conn {
-                    let kind = if *eof { CloseKind::Eof } else { CloseKind::Reset };
+                    let kind = if *eof {
+                        CloseKind::Eof
+                    } else {
+                        CloseKind::Reset
+                    };
                     io::chan_close(&a, kind);
                     io::chan_close(&b, kind);
                     sim.count("fault.cut");
@@ -1429,10 +1745,28 @@ pub async fn drive(sim: &Sim, case: &SmastCase) -> MastRun {
     }
     sim.settle().await;
     let end_ms = sim.now_ms();
-    let leftover_replies: usize = peer.lock().unwrap().outstations.iter().map(|o| o.replies.len()).sum();
+    let leftover_replies: usize = peer
+        .lock()
+        .unwrap()
+        .outstations
+        .iter()
+        .map(|o| o.replies.len())
+        .sum();
     let peer_log = peer.lock().unwrap().log.clone();
-    let time_written = peer.lock().unwrap().outstations.first().map(|o| o.time_written.clone()).unwrap_or_default();
-    let recorded_at = peer.lock().unwrap().outstations.first().map(|o| o.recorded_times.clone()).unwrap_or_default();
+    let time_written = peer
+        .lock()
+        .unwrap()
+        .outstations
+        .first()
+        .map(|o| o.time_written.clone())
+        .unwrap_or_default();
+    let recorded_at = peer
+        .lock()
+        .unwrap()
+        .outstations
+        .first()
+        .map(|o| o.recorded_times.clone())
+        .unwrap_or_default();
     let last_deviation_ms = peer.lock().unwrap().last_deviation_ms;
     let run = MastRun {
         peer_log,
@@ -1444,7 +1778,10 @@ pub async fn drive(sim: &Sim, case: &SmastCase) -> MastRun {
         leftover_replies,
         time_written,
         recorded_at,
-        need_time_was_set: case.script.iter().any(|o| matches!(o, MOp::SetIin { iin1, .. } if iin1 & 0x10 != 0)),
+        need_time_was_set: case
+            .script
+            .iter()
+            .any(|o| matches!(o, MOp::SetIin { iin1, .. } if iin1 & 0x10 != 0)),
         poll_ops,
         master_polls: sim.task_polls(node.task),
         last_deviation_ms,
@@ -1497,15 +1834,23 @@ where
             outcome.count(k, *v);
         }
     }
-    outcome.count("fault.rechunk", report.counters.get("phys_reads").copied().unwrap_or(0));
+    outcome.count(
+        "fault.rechunk",
+        report.counters.get("phys_reads").copied().unwrap_or(0),
+    );
     match &report.exit {
         Exit::Done => {}
         Exit::Panic(task, msg, loc) => {
             if loc.contains("/verif/") {
-                outcome.harness_error = Some(format!("harness panic in {}: {} at {}", task, msg, loc));
+                outcome.harness_error =
+                    Some(format!("harness panic in {}: {} at {}", task, msg, loc));
             } else {
                 let short = loc.rsplit("/dnp3/src/").next().unwrap_or(loc).to_string();
-                outcome.violation = Some(Violation::new(&format!("{}/panic", prop), short, format!("task '{}' panicked: {} at {}", task, msg, loc)));
+                outcome.violation = Some(Violation::new(
+                    &format!("{}/panic", prop),
+                    short,
+                    format!("task '{}' panicked: {} at {}", task, msg, loc),
+                ));
             }
             return outcome;
         }
@@ -1570,7 +1915,10 @@ pub fn shrink_case(case: &SmastCase) -> Vec<SmastCase> {
             if replies.len() > 1 {
                 for r in crate::verif::runner::shrink_vec(replies) {
                     let mut c = case.clone();
-                    c.script[i] = MOp::Replies { assoc: *assoc, replies: r };
+                    c.script[i] = MOp::Replies {
+                        assoc: *assoc,
+                        replies: r,
+                    };
                     out.push(c);
                 }
             }
